@@ -662,6 +662,9 @@ def run(ctx: Ctx) -> None:
     rep.floor("C01.R9", n9, 2)
 
     dismiss_rule(ctx, "C01.R6")
+    if ctx.report.prop == "C01":
+        from .common import share_rules as _share8
+        _share8(ctx, "C09", "C01.R25", ['C09.R2'], 'a path produced by a keep is registered for the loads that follow under the RETURN signature of its producer: a reader keyed on the body text of the producer only is served a stale blob when a variable or callee of the producer changes (plain execution recomputes)')
 
 
 def context_extent(ctx: Ctx):
